@@ -78,7 +78,14 @@ def run(ctx):
                 lengths[pos] = W if (j + pos) % 2 == 0 else W + 1
                 short.append({"N": 1 + j % 2, "W": W, "K": 2, "beta": 2.0, "lam": 0.11, "limit": 2, "m": 2, "biased": False, "eps": 0, "joint": True,
                               "lengths": lengths, "data_seed": 700 + 10 * j + pos, "rng_seed": 700 + j, "regimes": 2})
-        runs = runs + e2e.cached_runs(ctx, short if ctx.thorough else short[::2], "c04short")
+        # both ends of the "one list per input series" quantifier: a joint call with exactly one series, and with six
+        ends = []
+        for j, (N, W) in enumerate([(1, 1), (2, 3), (3, 2), (1, 4)]):
+            ends.append({"N": N, "W": W, "K": 2 + j % 2, "beta": 2.0, "lam": 0.11, "limit": 2, "m": 2, "biased": False, "eps": 0, "joint": True,
+                         "lengths": [45 + j], "data_seed": 800 + j, "rng_seed": 800 + j, "regimes": 2})
+        ends.append({"N": 2, "W": 2, "K": 2, "beta": 2.0, "lam": 0.11, "limit": 2, "m": 2, "biased": False, "eps": 0, "joint": True,
+                     "lengths": [30, 21, 26, 33, 24, 28], "data_seed": 810, "rng_seed": 810, "regimes": 2})
+        runs = runs + e2e.cached_runs(ctx, short if ctx.thorough else short[::2], "c04short") + e2e.cached_runs(ctx, ends, "c04ends")
         # a tiny in-process run keeps the front-end lines under the tracer even on a cache hit
         e2e.traced_run({"N": 1, "W": 2, "K": 2, "beta": 1.0, "lengths": [30], "limit": 1, "m": 1, "data_seed": 1, "rng_seed": 1, "joint": False})
         e2e.traced_run({"N": 1, "W": 2, "K": 2, "beta": 1.0, "lengths": [30, 25], "limit": 1, "m": 1, "data_seed": 1, "rng_seed": 1, "joint": True})
@@ -98,8 +105,10 @@ def run(ctx):
             continue
         flabels = fin[0]["state"]["labels"]
         if cfg["joint"]:
-            if res["type"] != "MultipleDataSeriesResult" or len(res["point_labels"]) != len(cfg["lengths"]):
-                ctx.violation("monitor", "joint front end did not return one label list per series", {"case": case})
+            if res["type"] != "MultipleDataSeriesResult" or len(res["point_labels"]) != len(cfg["lengths"]) \
+                    or not all(isinstance(l, (list, tuple, np.ndarray)) for l in res["point_labels"]):
+                ctx.violation("monitor", "joint front end did not return one label list per series (%d series, got %r ...)" % (
+                    len(cfg["lengths"]), str(res["point_labels"])[:80]), {"case": case})
                 continue
             for l, T in zip(res["point_labels"], cfg["lengths"]):
                 check_labels(ctx, l, T, W, K, "ticc_joint_labels", case)
